@@ -9,12 +9,12 @@ _old = os.path.join(VERIF, 'seeded', 'RESULTS.md')
 if os.path.exists(_old):
     for l in open(_old):
         m = re.match(r'\| (\S+) \| (C\d\d) \| (.+?) \|$', l.strip())
-        if m: res[(m.group(1), m.group(2))] = m.group(3)
+        if m and not m.group(1).startswith('b_'): res[(m.group(1), m.group(2))] = m.group(3)
 logs = sorted(glob.glob('/tmp/mutants*.log'), key=os.path.getmtime)
 for f in logs:
     for l in open(f):
         m = re.match(r'(\S+)\s+(C\d\d): (VIOLATION|OK)(.*)', l)
-        if not m or '950e81511c0f' in l: continue
+        if not m or '950e81511c0f' in l or m.group(1).startswith('b_'): continue   # behaviour-preserving refactorings: benign/RESULTS.md
         name, pid, st, rest = m.groups()
         res[(name, pid)] = ('reported, failing input found' if st == 'VIOLATION' and 'no-failing-input-found' not in rest else 'reported (no-failing-input-found)' if st == 'VIOLATION' else 'silent')
 # only the checks a seeded change is registered for (seeded/<id>/meta.json 'checks'); a check dropped from that list
